@@ -656,6 +656,25 @@ class Normaliser:
                         setattr(st, fld, visit(v))
                 for h in getattr(st, "handlers", []) or []:
                     h.body = visit(h.body)
+                if isinstance(st, ast.For) and not st.orelse and isinstance(st.target, ast.Name) and isinstance(st.iter, ast.Call) and not st.iter.keywords \
+                        and ast.unparse(st.iter.func).split(".")[-1] == "chain" and len(st.iter.args) >= 2 \
+                        and any(isinstance(a, (ast.Tuple, ast.List)) for a in st.iter.args) \
+                        and not any(isinstance(x, (ast.Break, ast.Continue, ast.Yield, ast.YieldFrom, ast.Return)) for b in st.body for x in ast.walk(b)):
+                    # for x in chain(A, (c,), B): BODY   ==>   for x in A: BODY;  BODY[x:=c];  for x in B: BODY
+                    inside = {id(x) for x in ast.walk(st)}
+                    used_outside = any(isinstance(x, ast.Name) and x.id == st.target.id and id(x) not in inside for x in ast.walk(fn))
+                    if not used_outside and all((isinstance(a, (ast.Tuple, ast.List)) and all(_movable(e) for e in a.elts)) or _movable(a) or isinstance(a, ast.Call) for a in st.iter.args):
+                        segs: list[ast.stmt] = []
+                        for a in st.iter.args:
+                            if isinstance(a, (ast.Tuple, ast.List)):
+                                for e in a.elts:
+                                    for b in st.body:
+                                        segs.extend(self.simplify_consts([ast.fix_missing_locations(_Subst({st.target.id: e}).visit(copy.deepcopy(b)))]))
+                            else:
+                                segs.append(ast.fix_missing_locations(ast.copy_location(ast.For(target=copy.deepcopy(st.target), iter=a, body=copy.deepcopy(st.body), orelse=[]), st)))
+                        self.hit("chain-loop-split")
+                        out.extend(visit(segs))
+                        continue
                 if isinstance(st, ast.For) and not st.orelse and isinstance(st.target, (ast.Name, ast.Tuple)) \
                         and not any(isinstance(x, (ast.Break, ast.Continue, ast.Yield, ast.YieldFrom, ast.Return)) for b in st.body for x in ast.walk(b)):
                     names = [st.target.id] if isinstance(st.target, ast.Name) else [x.id for x in st.target.elts if isinstance(x, ast.Name)]
@@ -791,12 +810,8 @@ class Normaliser:
                     a = assigns[x.id]
                     if (x.lineno, x.col_offset) <= (a.lineno, a.col_offset):
                         objs.pop(x.id, None)
-            # nested functions capture the name: leave those alone
-            for inner in ast.walk(fn):
-                if inner is not fn and isinstance(inner, (ast.FunctionDef, ast.AsyncFunctionDef, ast.Lambda)):
-                    for x in ast.walk(inner):
-                        if isinstance(x, ast.Name) and x.id in objs:
-                            objs.pop(x.id, None)
+            # (closures reading the name see the same object: the chain is re-evaluated there, which is the same for a stable chain
+            #  rooted in names the closure can see -- parameters and locals of the enclosing function that are bound once)
         if objs:
             class _O(ast.NodeTransformer):
                 def visit_Name(self_, x):  # noqa: N805
@@ -976,6 +991,20 @@ class Normaliser:
             new = ast.Assign(targets=[ast.Attribute(value=st.value.args[0], attr=st.value.args[1].value, ctx=ast.Store())], value=st.value.args[2])
             self.hit("setattr-literal->assignment")
             return [ast.fix_missing_locations(ast.copy_location(new, st))]
+        if isinstance(st, (ast.Expr, ast.Assign)) and isinstance(st.value, ast.Call) and not any(isinstance(a, ast.Starred) for a in st.value.args):
+            # f(p, A if c else B)   ==>   if c: f(p, A) else: f(p, B)       (what precedes the conditional argument is plain loads)
+            ix = [i_ for i_, a in enumerate(st.value.args) if isinstance(a, ast.IfExp)]
+            if len(ix) == 1 and _movable(st.value.func) and all(_movable(a) for a in st.value.args[:ix[0]]) and _movable(st.value.args[ix[0]].test) \
+                    and not any(isinstance(k.value, ast.IfExp) for k in st.value.keywords):
+                ie = st.value.args[ix[0]]
+                arms = []
+                for val in (ie.body, ie.orelse):
+                    c2 = copy.deepcopy(st)
+                    c2.value.args[ix[0]] = copy.deepcopy(val)
+                    arms.append(ast.fix_missing_locations(c2))
+                self.hit("conditional-argument->if/else")
+                new_if = ast.fix_missing_locations(ast.copy_location(ast.If(test=ie.test, body=[arms[0]], orelse=[arms[1]]), st))
+                return self.block([new_if])
         if isinstance(st, ast.With) and len(st.items) == 1 and isinstance(st.items[0].optional_vars, ast.Name) \
                 and isinstance(st.items[0].context_expr, ast.Call) and not st.items[0].context_expr.args and not st.items[0].context_expr.keywords \
                 and ast.unparse(st.items[0].context_expr.func).split(".")[-1] == "ExitStack":
